@@ -159,7 +159,8 @@ fn snapshot(s: &mut Session, rx: &HashMap<usize, Option<usize>>, bc: &mut tokio:
                     let hex = |b: &[u8]| b.iter().map(|x| format!("{:02x}", x)).collect::<String>();
                     let ok = t.len() == 5
                         && t[1] == hex(&OWN_ID)
-                        && t[2] == (if loopback_port(key).is_some() { "-".to_string() } else { hex(&id_of(key)) }) // a listener's task expects no particular id
+                        // a listener's task expects no particular id; a tracker entry's task the id the tracker listed (K's or a stale one)
+                        && (t[2] == (if loopback_port(key).is_some() { "-".to_string() } else { hex(&id_of(key)) }) || t[2] == hex(&id_of(key + 50)))
                         && t[3] == hex(info_hash)
                         && t[4] == s.verif_statuses().len().to_string();
                     format!("peer:{}{}", key, if ok { "" } else { ":BAD" })
@@ -466,10 +467,12 @@ async fn exec(s: &mut Session, rx: &mut HashMap<usize, Option<usize>>, pend: &mu
             let mut body = b"d8:intervali1800e5:peersl".to_vec();
             if op[1] != "-" {
                 for t in op[1].split(',') {
-                    let k: usize = t.parse().unwrap();
+                    // "Kx": address K listed under another peer id than the one K is known by (a stale tracker entry)
+                    let stale = t.ends_with('x');
+                    let k: usize = t.trim_end_matches('x').parse().unwrap();
                     let ip = format!("10.0.0.{}", k);
                     body.extend_from_slice(format!("d2:ip{}:{}7:peer id20:", ip.len(), ip).as_bytes());
-                    body.extend_from_slice(&id_of(k));
+                    body.extend_from_slice(&id_of(if stale { k + 50 } else { k }));
                     body.extend_from_slice(b"4:porti6881ee");
                 }
             }
